@@ -25,6 +25,11 @@ impl TscTimestamp {
     #[inline]
     #[allow(unreachable_code)]
     pub fn frequency() -> Result<NonZeroU64, TscUnavailable> {
+        #[cfg(divan_verif)]
+        if let Some(frequency) = ::divan_verif_rt::clock::forced_frequency() {
+            return Ok(frequency);
+        }
+
         // Miri does not support inline assembly.
         #[cfg(miri)]
         return Err(TscUnavailable::Unimplemented);
@@ -43,6 +48,13 @@ impl TscTimestamp {
     /// Reads the timestamp counter.
     #[inline(always)]
     pub fn start() -> Self {
+        #[cfg(divan_verif)]
+        if let Some(value) =
+            ::divan_verif_rt::clock::read(::divan_verif_rt::clock::Edge::Start)
+        {
+            return Self { value };
+        }
+
         #[allow(unused)]
         let value = 0;
 
@@ -58,6 +70,13 @@ impl TscTimestamp {
     /// Reads the timestamp counter.
     #[inline(always)]
     pub fn end() -> Self {
+        #[cfg(divan_verif)]
+        if let Some(value) =
+            ::divan_verif_rt::clock::read(::divan_verif_rt::clock::Edge::End)
+        {
+            return Self { value };
+        }
+
         #[allow(unused)]
         let value = 0;
 
